@@ -5,6 +5,8 @@ From MD Require Import Regex.LocalityProofs Generated.Regexes.
 From MD Require Import Proofs.RoundTrip Proofs.RoundTrip3.
 From MD Require Import Regex.LocalityProofs Proofs.RoundTrip Proofs.RoundTrip2 Proofs.RoundTrip3 Proofs.RoundTrip4 Proofs.RoundTrip5 Proofs.RoundTrip6.
 From MD Require Import Proofs.RoundTrip7.
+From MD Require Import Proofs.RoundTrip9.
+From MD Require Import Proofs.RoundTrip8.
 
 (* every canonical dotted quad is an instance ... *)
 Theorem C11_quad_accepted : forall s : bytes, canonical_quad s = true <-> (exists a b c d : Z, 0 <= a < 256 /\ 0 <= b < 256 /\ 0 <= c < 256 /\ 0 <= d < 256 /\ s = quad a b c d).
@@ -181,6 +183,24 @@ Print Assumptions C11_windows_path_found.
 Theorem C11_pe_found : forall (pe_size : bytes -> Z) (pre blob : bytes) (suf : list N), pe_header_ok blob = true -> pe_size (blob ++ suf) = blen blob -> no_mz pre = true -> let data := pre ++ blob ++ suf in find_pe_files pe_size data = Hang \/ (exists rest : list node, find_pe_files pe_size data = Ok (Node PE_TYPE blob [] (blen pre) (blen pre + blen blob) [] :: rest) /\ Forall (fun nd : node => blen pre + 2 <= n_st nd) rest).
 Proof. exact find_pe_files_roundtrip. Qed.
 Print Assumptions C11_pe_found.
+
+(* END TO END (Proofs/RoundTrip9.v): UNC paths host / share / directories / file over the stated class are reported as ONE windows.unc.path node with exactly their span, verbatim, at any offset after a neutral prefix *)
+Theorem C11_unc_path_found : forall (is_domain : bytes -> bool) (pre : list N) (host share : bytes) (dirs : list bytes) (base ext suf : bytes), whost_ok host = true -> wsegs_ok (share :: dirs) = true -> wfile_ok base ext = true -> wpath_stop suf = true -> let form := wunc_form host (share :: dirs) (wfile base ext) in neutral RE_path_WINDOWS_PATH_RE pre = true -> (2 * Datatypes.length form + 100 <= default_fuel)%nat -> let data := pre ++ form ++ suf in find_windows_path is_domain data = Hang \/ (exists rest : list node, find_windows_path is_domain data = Ok (Node UNC_PATH_TYPE form [] (blen pre) (blen pre + blen form) (wunc_kids is_domain host form base ext) :: rest) /\ Forall (fun nd : node => blen pre + blen form <= n_st nd) rest).
+Proof. exact find_windows_path_roundtrip_unc. Qed.
+Print Assumptions C11_unc_path_found.
+
+Theorem C11_unc_path_domain_host : forall (tlds : list bytes) (pre : list N) (labels : list bytes) (tld share : bytes) (dirs : list bytes) (base ext suf : bytes), labels_ok labels = true -> tld_ok tld = true -> In (upper tld) tlds -> let host := dotted labels ++ tld in whost_ok host = true -> wsegs_ok (share :: dirs) = true -> wfile_ok base ext = true -> wpath_stop suf = true -> let form := wunc_form host (share :: dirs) (wfile base ext) in neutral RE_path_WINDOWS_PATH_RE pre = true -> (2 * Datatypes.length form + 100 <= default_fuel)%nat -> let data := pre ++ form ++ suf in find_windows_path (is_domain tlds) data = Hang \/ (exists rest : list node, find_windows_path (is_domain tlds) data = Ok (Node UNC_PATH_TYPE form [] (blen pre) (blen pre + blen form) (Node DOMAIN_TYPE host [] 2 (2 + blen host) [] :: wpath_kids form base ext) :: rest) /\ Forall (fun nd : node => blen pre + blen form <= n_st nd) rest).
+Proof. exact find_windows_path_roundtrip_unc_domain. Qed.
+Print Assumptions C11_unc_path_domain_host.
+
+(* END TO END (Proofs/RoundTrip8.v): URLs with an explicit port are reported verbatim with exactly their span at any offset *)
+Theorem C11_url_port_found : forall (pre : list N) (scheme : bytes) (labels : list bytes) (tld port path suf : bytes), url_scheme_ok scheme -> labels_ok labels = true -> tld_ok tld = true -> mem (upper tld) Tables.TOP_LEVEL_DOMAINS = true -> let host := dotted labels ++ tld in (URL_HOST_MIN <= Datatypes.length host <= URL_HOST_MAX)%nat -> port_ok port = true -> url_path_ok path = true -> url_stop suf = true -> let form := url_form scheme (hostport host port) path in neutral RE_network_URL_RE pre = true -> is_printable pre = true -> (Datatypes.length form + Datatypes.length (take_trail suf) + 200 <= default_fuel)%nat -> let data := pre ++ form ++ suf in find_urls Tables.TOP_LEVEL_DOMAINS data = Hang \/ (exists rest : list node, find_urls Tables.TOP_LEVEL_DOMAINS data = Ok (Node URL_TYPE form [] (blen pre) (blen pre + blen form) (url_port_kids scheme host port path) :: rest) /\ Forall (fun nd : node => blen pre + blen form <= n_st nd) rest).
+Proof. exact find_urls_roundtrip_port_table. Qed.
+Print Assumptions C11_url_port_found.
+
+Theorem C11_url_ip_host_found : forall (tlds : list bytes) (pre : list N) (scheme q path suf : bytes), url_scheme_ok scheme -> canonical_quad q = true -> url_path_ok path = true -> url_stop suf = true -> let form := url_form scheme q path in neutral RE_network_URL_RE pre = true -> url_ctx_ok pre form suf = true -> (Datatypes.length form + Datatypes.length (take_trail suf) + 100 <= default_fuel)%nat -> let data := pre ++ form ++ suf in find_urls tlds data = Hang \/ (exists rest : list node, find_urls tlds data = Ok (Node URL_TYPE form [] (blen pre) (blen pre + blen form) (url_ip_kids scheme q path) :: rest) /\ Forall (fun nd : node => blen pre + blen form <= n_st nd) rest).
+Proof. exact find_urls_roundtrip_iphost. Qed.
+Print Assumptions C11_url_ip_host_found.
 
 Example C11_example :
   find_ips (L"zz 10.20.30.40 zz") = Ok [Node (L"network.ip") (L"10.20.30.40") [] 3 14 []]
